@@ -23,7 +23,10 @@ RULE = ("cases = (binary|ternary configuration: alpha in {None, 0.5, 1, 2, "
 ASSUMPTIONS = [
     "checks run under TF_USE_LEGACY_KERAS=1 (tf_keras), float32, eager, "
     "K.epsilon()==1e-7, channels_last",
-    "use_stochastic_rounding=False (C08 covers it); number_of_unrolls >= 1 "
+    "use_stochastic_rounding=True is generated for binary and ternary('auto*') "
+    "and evaluated at learning phase 0 only, where the library documents the "
+    "deterministic behaviour (same oracle; the training phase is C08's); "
+    "number_of_unrolls >= 1 "
     "(0 leaves the code undefined in the library: UnboundLocalError)",
     "scale_axis entries are non-negative and ascending; elements_per_scale "
     "only together with an explicit scale_axis (the library asserts it)",
@@ -62,6 +65,7 @@ REQUIRED_LABELS = {
         "alpha:auto_po2", "use_01", "rank1", "rank2", "rank3", "rank4",
         "axis_int", "axis_list", "eps", "po2_bounds", "zero_group",
         "threshold_checked", "meta_modify", "meta_reverse", "ls_checked", "primed",
+        "sr_inference:binary", "sr_inference:ternary",
         "bounds_active"]
     for t in ("quick", "thorough")}
 
@@ -73,6 +77,8 @@ def _base(cfg):
   sig = {"cls": cfg["cls"], "alpha": G.alpha_kind(kw.get("alpha"))}
   if cfg["cls"] == "binary" and kw.get("use_01"):
     sig["use_01"] = True
+  if kw.get("use_stochastic_rounding"):
+    sig["stochastic_rounding"] = "inference"
   return sig
 
 
@@ -83,6 +89,8 @@ def _labels(case):
           "rank%d" % len(case["shape"]), G.axis_kind(kw)]
   if kw.get("use_01"):
     labs.append("use_01")
+  if kw.get("use_stochastic_rounding"):
+    labs.append("sr_inference:" + cfg["cls"])
   if kw.get("elements_per_scale") is not None:
     labs.append("eps")
     if isinstance(kw["elements_per_scale"], list):
@@ -408,6 +416,15 @@ def edge_cases():
                     "shape": [len(sp)], "xs": sp})
       cases.append({"cfg": {"cls": "binary", "kw": {"alpha": a, "use_01": u}},
                     "shape": [7, 2], "xs": sp})
+  small = [-0.25, 0.25, -0.49, 0.5, -0.01, 1.0, -1.0, 0.0, -3.0, 0.125, -0.125, 2.0]
+  for a in [None, 1.0, 2.0, "auto", "auto_po2"]:
+    for u in [False, True]:
+      kw = {"alpha": a, "use_01": u, "use_stochastic_rounding": True}
+      cases.append({"cfg": {"cls": "binary", "kw": kw}, "shape": [12], "xs": small})
+      cases.append({"cfg": {"cls": "binary", "kw": kw}, "shape": [4, 3], "xs": small})
+  for a in ["auto", "auto_po2"]:
+    kw = {"alpha": a, "use_stochastic_rounding": True}
+    cases.append({"cfg": {"cls": "ternary", "kw": kw}, "shape": [4, 3], "xs": small})
   huge = [3e7, -3e7, 1e9, -1e9, 1.0, -1.0]
   for a in [0.5, 1.0, 2.0]:
     cases.append({"cfg": {"cls": "binary", "kw": {"alpha": a, "use_01": False}},
